@@ -1008,7 +1008,7 @@ fn main() {
         std::process::exit(if bad.is_empty() && (model.is_null() || impl_out == model_out) { 0 } else { 1 });
     }
 
-    let n_random = if args.thorough() { 50_000 } else { 3_000 };
+    let n_random = if args.thorough() { 30_000 } else { 3_000 };
     let mut rng = Rng::new(args.seed);
     let mut cases: Vec<(String, Case)> = corpus();
     for (_, c) in &cases {
